@@ -729,11 +729,83 @@ fn demux_tcp_cases(env: &mut Env, run: &mut Run) {
                 else if after.rems != before.rems { "candidate-added" } else if after.selsock != before.selsock { "selected-socket-changed" } else { "" };
             if !field.is_empty() { run.fail(&format!("unauth:demux-tcp-first-frame:{role}:{field}"), &case, &format!("{} -> {}", before.text(), after.text())); }
             if streams_after != streams_before { run.count("observation_unauthenticated_tcp_connection_registered_before_authentication");
-                if with_genuine_before { run.count("observation_unauthenticated_tcp_connection_replaced_genuine_stream_in_table"); } }
+                // known finding (not one of the four named effects): the table is keyed by the listen address, the newest connection wins
+                if with_genuine_before { run.fail("preauth:tcp-stream-table:attach-demuxed:genuine-stream-replaced-by-unauthenticated-connection", &case, &format!("{streams_before:?} -> {streams_after:?}")); } }
         } else if !controlling && after.nom != Some(true) { run.fail("demux-tcp:genuine-first-frame-not-honoured", &case, &after.text()); }
         run.count(&format!("demux_tcp_{first}"));
         transport.stop();
         drop(keep);
+    }}}}
+}
+
+/// `run_tcp_listen_loop` (the accept loop of a passive ICE-TCP candidate, hook `verif_run_tcp_listen_loop`): a
+/// connection is stored under the listener key and handed to the runner before a single byte is read. Oracle:
+/// a mere TCP connect (optionally followed by an unauthenticated request nobody has read yet) changes none of
+/// state / nomination / selected pair / remote candidates / selected socket. Known finding: it REPLACES the
+/// stream of a genuine, nominated peer in the table, after which `resolve_socket` (used by the keepalive tick and by
+/// the selection after the checks) hands out the stranger's connection.
+fn listen_loop_cases(env: &mut Env, run: &mut Run) {
+    use tokio::io::{AsyncReadExt, AsyncWriteExt};
+    for controlling in [false, true] { for state in [1u8, 2, 5] { for with_genuine_before in [false, true] { for sends in ["nothing", "unauth-request"] {
+        let (transport, _r) = IceTransport::new(rustrtc::RtcConfiguration::default());
+        transport.set_role(if controlling { IceRole::Controlling } else { IceRole::Controlled });
+        transport.set_remote_parameters(rustrtc::transports::ice::IceParameters::new(REMOTE_UFRAG, REMOTE_PWD));
+        transport.verif_set_state(STATES[state as usize]);
+        let role = if controlling { "controlling" } else { "controlled" };
+        let case = format!("tcp-accept role={role} state={} sends={sends} genuine-before={with_genuine_before}", STATE_NAMES[state as usize]);
+        let t = transport.clone();
+        let (before, after, streams_before, streams_after, keepalive_to) = env.rt.block_on(async {
+            let l = Arc::new(TcpListener::bind("127.0.0.1:0").await.unwrap());
+            let la = l.local_addr().unwrap();
+            let lc = IceCandidate::host_tcp(la, 1, TcpType::Passive);
+            t.verif_add_local_candidate(lc.clone());
+            let t2 = t.clone();
+            let work = async {
+                let mut genuine = None;
+                if with_genuine_before {
+                    let g = TcpStream::connect(la).await.unwrap();
+                    tokio::time::sleep(Duration::from_millis(20)).await;
+                    // the genuine peer has been nominated on this connection: remote candidate, selected pair, nomination complete
+                    let rc = IceCandidate::host_tcp(g.local_addr().unwrap(), 1, TcpType::Active);
+                    t.verif_add_remote_candidate_quiet(rc.clone());
+                    t.verif_set_selected_pair(Some(IceCandidatePair::new(lc.clone(), rc)));
+                    t.verif_set_nomination_complete(Some(true));
+                    genuine = Some(g);
+                }
+                let before = observe(&t, "-".into());
+                let streams_before = t.verif_tcp_streams();
+                let mut x = TcpStream::connect(la).await.unwrap();
+                if sends == "unauth-request" {
+                    let m = StunMessage { class: StunClass::Request, method: StunMethod::Binding, transaction_id: [3; 12],
+                        attributes: vec![StunAttribute::Username("zzzz:peer".into()), StunAttribute::Priority(1), StunAttribute::UseCandidate] }.encode(Some(b"nope"), true).unwrap();
+                    let mut framed = (m.len() as u16).to_be_bytes().to_vec(); framed.extend_from_slice(&m);
+                    let _ = x.write_all(&framed).await;
+                }
+                tokio::time::sleep(Duration::from_millis(20)).await;
+                let after = observe(&t, "-".into());
+                let streams_after = t.verif_tcp_streams();
+                // where does the keepalive for the selected (genuine) peer go now?
+                let mut keepalive_to = "-";
+                if with_genuine_before && matches!(STATES[state as usize], IceTransportState::Connected | IceTransportState::Disconnected) {
+                    t.verif_run_keepalive_tick().await;
+                    let mut buf = [0u8; 512];
+                    let gx = tokio::time::timeout(Duration::from_millis(30), genuine.as_mut().unwrap().read(&mut buf)).await.map(|r| r.unwrap_or(0)).unwrap_or(0);
+                    let xx = tokio::time::timeout(Duration::from_millis(30), x.read(&mut buf)).await.map(|r| r.unwrap_or(0)).unwrap_or(0);
+                    keepalive_to = if xx > 0 { "unauthenticated-connection" } else if gx > 0 { "genuine-connection" } else { "nowhere" };
+                }
+                drop(genuine);
+                (before, after, streams_before, streams_after, keepalive_to)
+            };
+            tokio::select! { biased; r = work => r, _ = t2.verif_run_tcp_listen_loop(l.clone()) => unreachable!("listen loop ended") }
+        });
+        let field = if after.state != before.state { "state-changed" } else if after.nom != before.nom { "nomination-completed" } else if after.sel != before.sel { "selected-pair-changed" }
+            else if after.rems != before.rems { "candidate-added" } else if after.selsock != before.selsock { "selected-socket-changed" } else { "" };
+        if !field.is_empty() { run.fail(&format!("unauth:tcp-accept:{role}:{field}"), &case, &format!("{} -> {}", before.text(), after.text())); }
+        if streams_after == streams_before { run.count("tcp_accept_not_registered"); } else { run.count("observation_unauthenticated_tcp_connection_registered_before_authentication"); }
+        if with_genuine_before && streams_after != streams_before { run.fail("preauth:tcp-stream-table:listen-loop:genuine-stream-replaced-by-unauthenticated-connection", &case, &format!("{streams_before:?} -> {streams_after:?}")); }
+        if keepalive_to == "unauthenticated-connection" { run.fail("preauth:tcp-stream-table:listen-loop:keepalive-for-the-selected-peer-sent-to-unauthenticated-connection", &case, ""); }
+        run.count(&format!("tcp_accept_keepalive_to_{keepalive_to}"));
+        transport.stop();
     }}}}
 }
 
@@ -886,6 +958,7 @@ pub fn run(args: &Args) {
     raw_auth_stream(&mut env, &mut run, &mut rng, args.tier_thorough);
     probe_cases(&mut env, &mut run, &mut rng, args.tier_thorough);
     demux_tcp_cases(&mut env, &mut run);
+    listen_loop_cases(&mut env, &mut run);
     run.exhaustive = true;
     run.notes.insert("exhaustive_scope".into(), serde_json::json!("request matrix USERNAME{none,wrong,correct} x MESSAGE-INTEGRITY{none,corrupted,wrong-key,correct,remote-password} x ±USE-CANDIDATE x known/unknown source x all 7 transport states x {controlled,controlling} x {UDP, shared UDP mux, TCP listener, accepted TCP stream, TURN relay}; 28 malformed credential layouts; liveness matrix {Connected,Disconnected} x timeouts x remote-params x mode x selected pair x 12 datagram kinds x 2 sources followed by two keepalive ticks; responses {pending, second pending, unknown id} x {success,error} x 3 repetitions x roles x states"));
     run.finish();
